@@ -743,6 +743,9 @@ def scenarios(pid, tier):
             # cold connection: further requests arriving at every point of the first request's connection initialisation
             # (one stream only until the server's SETTINGS have been read)
             out.append(S(ct, ["req:a", "req:a:late", "req:a:late"], max_connections=1, early=False))
+            # the same with a server that answers only when the explorer says so (an auto-answering server has closed a stream
+            # by its own books before the next HEADERS of the same write is parsed)
+            out.append(S(ct, ["req:a", "req:a:late", "req:a:late"], max_connections=1, early=False, h2script={"frag": 1}))
     if pid == "C03":
         # transparent re-sends: a stream refused by GOAWAY is sent again on another connection; both transmissions are decoded by the peer
         for ct in (["h2pk"] if quick else ["h2pk", "h2alpn"]):
